@@ -5,13 +5,7 @@
 (*                  <<"OBS", case, module, call, Obs, why, steps>>            *)
 (*                  for engines that hand the observation of the wasm module  *)
 (*                  to another specification (IR.tla in C23).                 *)
-(* (Cases is bound by INSTANCE ... WITH: a cfg override  Cases <- JsonCases   *)
-(*  makes TLC re-read the file on every reference.)                           *)
-EXTENDS Json, IOUtils, TLC
-
-JsonCases == JsonDeserialize(IOEnv.TRACE_FILE)
-VARIABLES chunk, i, ph, ci, stack, mem, pages, glob, tab, calls, status, why, ret, steps, olog
-INSTANCE Wasm WITH Cases <- JsonCases
+EXTENDS Wasm
 
 \* never enabled; evaluated once per finished state, printing the observation on the way
 EmitObs == Finished /\ PrintT(<<"OBS", i, ph, ci, Obs, why, steps>>) /\ FALSE /\ UNCHANGED vars
